@@ -278,13 +278,51 @@ func c11(r *core.Run) {
 			return
 		}
 		body := mc.Fn.(*ssa.Function)
-		tc := core.Calls(body, core.CallTo("lib/store/sqlx.transact", "lib/store/sqlx.transactOnConn"))
+		// by role: the transaction runners are the functions that defer a finaliser; the protected
+		// closure must call (possibly through in-package hand-over functions) one of them
+		runners := map[*ssa.Function]bool{}
+		for _, fin := range finalisers {
+			if fin.Parent() != nil {
+				runners[fin.Parent()] = true
+			}
+		}
+		var reaches func(g *ssa.Function, depth int) bool
+		reaches = func(g *ssa.Function, depth int) bool {
+			if g == nil || depth > 3 {
+				return false
+			}
+			if runners[g] {
+				return true
+			}
+			for _, c := range core.Calls(g, func(in ssa.Instruction) bool { _, ok := in.(*ssa.Call); return ok }) {
+				if callee := c.Common().StaticCallee(); callee != nil && callee.Pkg == g.Pkg && callee != g && reaches(callee, depth+1) {
+					return true
+				}
+			}
+			return false
+		}
+		isRun := func(in ssa.Instruction) bool {
+			c, ok := in.(*ssa.Call)
+			if !ok {
+				return false
+			}
+			callee := c.Call.StaticCallee()
+			return callee != nil && callee.Pkg == body.Pkg && reaches(callee, 0)
+		}
+		tc := core.Calls(body, isRun)
 		if len(tc) == 0 {
 			o.Fail(p.Pos(body.Pos()), "the protected closure does not run the transaction")
 		}
+		passesBody := func(c ssa.CallInstruction, pred func(ssa.Value) bool) bool {
+			for _, a := range c.Common().Args {
+				if pred(a) {
+					return true
+				}
+			}
+			return false
+		}
 		for _, c := range tc {
-			a := core.Args(c)
-			if !core.CapturedParam(f, 2)(a[len(a)-1]) {
+			if !passesBody(c, core.CapturedParam(f, 2)) {
 				o.Fail(p.InstrPos(c), "the caller's transaction body is not passed through")
 			}
 			for _, ret := range core.Returns(body) {
@@ -299,16 +337,29 @@ func c11(r *core.Run) {
 				o.Fail(p.InstrPos(ret), "TransactCtx does not return the breaker's result")
 			}
 		}
-		// transact hands the same body to transactOnConn
-		t := p.Func(sqlx, "", "transact")
-		if o.Need(t != nil, "sqlx.transact") {
-			r.Fn(core.FuncName(t))
-			for _, c := range core.Calls(t, core.CallTo("lib/store/sqlx.transactOnConn")) {
-				o.Site(1)
-				a := core.Args(c)
-				if !core.ParamAt(t, 3)(a[len(a)-1]) {
-					o.Fail(p.InstrPos(c), "transact does not pass the body through")
+		// every hand-over function between the closure and the runner passes one of its own
+		// function-typed parameters on (the body)
+		for _, c := range tc {
+			g := c.Common().StaticCallee()
+			for depth := 0; g != nil && !runners[g] && depth < 3; depth++ {
+				r.Fn(core.FuncName(g))
+				var next *ssa.Function
+				for _, cc := range core.Calls(g, isRun) {
+					o.Site(1)
+					ok := passesBody(cc, func(v ssa.Value) bool {
+						pa, isP := core.Strip(core.Forward(core.Strip(v))).(*ssa.Parameter)
+						if !isP || pa.Parent() != g {
+							return false
+						}
+						_, isF := pa.Type().Underlying().(*types.Signature)
+						return isF
+					})
+					if !ok {
+						o.Fail(p.InstrPos(cc), "%s does not pass the body through", core.FuncName(g))
+					}
+					next = cc.Common().StaticCallee()
 				}
+				g = next
 			}
 		}
 	})
